@@ -20,3 +20,27 @@ Theorem C03_decl_pieces_recovered_partial pieces sp1 sp2 rest :
   = concat (map snd pieces) ++ decl_split rest.
 Proof. exact (decl_spelling_irrelevant pieces sp1 sp2 rest). Qed.
 Print Assumptions C03_decl_pieces_recovered_partial.
+
+(* ---- content layer (model and proofs of C18: Model/Strings.v over the
+        regenerated forbidden-in-uri regex) ---- *)
+From CssV Require Import Gen.GenValue Model.Strings Proofs.StringsFacts.
+
+(* quoting a string and unquoting it again gives the content back, for every
+   content without raw line breaks (those are written as escapes \a \d \c,
+   which the tokenizer decodes before stringvalue sees them) *)
+Theorem C03_string_content_roundtrip c : no_nl c = true -> stringvalue (string_ c) = c.
+Proof. exact (string_roundtrip c). Qed.
+Print Assumptions C03_string_content_roundtrip.
+
+(* the serialised string is exactly one STRING token iff the content is well
+   escaped; a value holding backslash + the other quote is not (known finding
+   C18-escaped-other-quote, the same input breaks C03) *)
+Theorem C03_string_relexes c : one_string_token (string_ c) = well_escaped c.
+Proof. exact (one_token_iff_well_escaped c). Qed.
+Theorem C03_string_relexes_refuted : exists c, one_string_token (string_ c) = false.
+Proof. exact one_token_refuted. Qed.
+
+(* url(): quoted iff a forbidden character occurs; unquoting inverts it *)
+Theorem C03_uri_content_roundtrip c : code_points c -> no_nl c = true -> urivalue (uri c) = c.
+Proof. exact (uri_roundtrip c). Qed.
+Print Assumptions C03_uri_content_roundtrip.
